@@ -88,10 +88,10 @@ structure Fr (s s' : CBelt) : Prop where
   sorted : QSorted s.queue → QSorted s'.queue
   gotLog : s'.gotLog = s.gotLog
   stat : s'.wsum = s.wsum ∧ s'.lastLevel = s.lastLevel ∧ s'.lastChange = s.lastChange
-  bind : s'.resEv = s.resEv ∧ s'.resItems = s.resItems ∧ s'.getQ = s.getQ
+  bind : s'.resEv = s.resEv ∧ s'.resItems = s.resItems ∧ s'.getQ = s.getQ ∧ s'.nextTid = s.nextTid
 
 theorem Fr.refl (s : CBelt) : Fr s s :=
-  ⟨rfl, rfl, rfl, rfl, rfl, rfl, rfl, rfl, rfl, rfl, rfl, Nat.le_refl _, fun _ h => h, fun _ h => Or.inl h, fun h => h, rfl, ⟨rfl, rfl, rfl⟩, ⟨rfl, rfl, rfl⟩⟩
+  ⟨rfl, rfl, rfl, rfl, rfl, rfl, rfl, rfl, rfl, rfl, rfl, Nat.le_refl _, fun _ h => h, fun _ h => Or.inl h, fun h => h, rfl, ⟨rfl, rfl, rfl⟩, ⟨rfl, rfl, rfl, rfl⟩⟩
 
 theorem Fr.trans {a b c : CBelt} (h1 : Fr a b) (h2 : Fr b c) : Fr a c := by
   refine ⟨h2.cfg.trans h1.cfg, h2.now.trans h1.now, h2.items.trans h1.items, h2.ready.trans h1.ready,
@@ -99,14 +99,14 @@ theorem Fr.trans {a b c : CBelt} (h1 : Fr a b) (h2 : Fr b c) : Fr a c := by
     h2.entered.trans h1.entered, h2.arrivals.trans h1.arrivals, h2.nput.trans h1.nput,
     Nat.le_trans h1.uid h2.uid, fun ev h => h2.qOld ev (h1.qOld ev h), ?_, fun h => h2.sorted (h1.sorted h), h2.gotLog.trans h1.gotLog,
     ⟨h2.stat.1.trans h1.stat.1, h2.stat.2.1.trans h1.stat.2.1, h2.stat.2.2.trans h1.stat.2.2⟩,
-    ⟨h2.bind.1.trans h1.bind.1, h2.bind.2.1.trans h1.bind.2.1, h2.bind.2.2.trans h1.bind.2.2⟩⟩
+    ⟨h2.bind.1.trans h1.bind.1, h2.bind.2.1.trans h1.bind.2.1, h2.bind.2.2.1.trans h1.bind.2.2.1, h2.bind.2.2.2.trans h1.bind.2.2.2⟩⟩
   intro ev hev
   rcases h2.qNew ev hev with h | ⟨ht, hk⟩
   · exact h1.qNew ev h
   · exact Or.inr ⟨by rw [ht, h1.now], hk⟩
 
 /-- a record update that touches none of the framed fields and leaves the queue alone -/
-theorem Fr.of_eq {s s' : CBelt} (eb : s'.resEv = s.resEv ∧ s'.resItems = s.resItems ∧ s'.getQ = s.getQ) (es : s'.wsum = s.wsum ∧ s'.lastLevel = s.lastLevel ∧ s'.lastChange = s.lastChange) (e0 : s'.gotLog = s.gotLog) (e1 : s'.cfg = s.cfg) (e2 : s'.now = s.now) (e3 : s'.items = s.items) (e4 : s'.ready = s.ready)
+theorem Fr.of_eq {s s' : CBelt} (eb : s'.resEv = s.resEv ∧ s'.resItems = s.resItems ∧ s'.getQ = s.getQ ∧ s'.nextTid = s.nextTid) (es : s'.wsum = s.wsum ∧ s'.lastLevel = s.lastLevel ∧ s'.lastChange = s.lastChange) (e0 : s'.gotLog = s.gotLog) (e1 : s'.cfg = s.cfg) (e2 : s'.now = s.now) (e3 : s'.items = s.items) (e4 : s'.ready = s.ready)
     (e5 : s'.putQ = s.putQ) (e6 : s'.putRes = s.putRes) (e7 : s'.getRes = s.getRes) (e8 : s'.procs = s.procs)
     (e9 : s'.entered = s.entered) (e10 : s'.arrivals = s.arrivals) (e11 : s'.nput = s.nput)
     (e12 : s.nextUid ≤ s'.nextUid) (e13 : s'.queue = s.queue) : Fr s s' :=
@@ -114,7 +114,7 @@ theorem Fr.of_eq {s s' : CBelt} (eb : s'.resEv = s.resEv ∧ s'.resItems = s.res
    fun h => by rw [e13]; exact h, e0, es, eb⟩
 
 theorem Fr.sched (s : CBelt) (u : Bool) (k : CKind) (hk : k.light) : Fr s (s.sched s.now u k) := by
-  refine ⟨rfl, rfl, rfl, rfl, rfl, rfl, rfl, rfl, rfl, rfl, rfl, Nat.le_refl _, ?_, ?_, ?_, rfl, ⟨rfl, rfl, rfl⟩, ⟨rfl, rfl, rfl⟩⟩
+  refine ⟨rfl, rfl, rfl, rfl, rfl, rfl, rfl, rfl, rfl, rfl, rfl, Nat.le_refl _, ?_, ?_, ?_, rfl, ⟨rfl, rfl, rfl⟩, ⟨rfl, rfl, rfl, rfl⟩⟩
   · intro ev h; exact mem_insCEv.mpr (Or.inr h)
   · intro ev h
     rcases mem_insCEv.mp h with rfl | h
@@ -123,7 +123,7 @@ theorem Fr.sched (s : CBelt) (u : Bool) (k : CKind) (hk : k.light) : Fr s (s.sch
   · intro h; exact insCEv_sorted h
 
 theorem Fr.giveUp (s : CBelt) : Fr s s.giveUp :=
-  Fr.of_eq ⟨rfl, rfl, rfl⟩ ⟨rfl, rfl, rfl⟩ rfl rfl rfl rfl rfl rfl rfl rfl rfl rfl rfl rfl (Nat.le_refl _) rfl
+  Fr.of_eq ⟨rfl, rfl, rfl, rfl⟩ ⟨rfl, rfl, rfl⟩ rfl rfl rfl rfl rfl rfl rfl rfl rfl rfl rfl rfl (Nat.le_refl _) rfl
 
 theorem Fr.interruptItem (s : CBelt) (id : Nat) : Fr s (s.interruptItem id) := by
   unfold CBelt.interruptItem
@@ -134,10 +134,10 @@ theorem Fr.interruptItem (s : CBelt) (id : Nat) : Fr s (s.interruptItem id) := b
 theorem Fr.spawnDelayed (s : CBelt) (id delay : Nat) : Fr s (s.spawnDelayed id delay) := by
   unfold CBelt.spawnDelayed
   have h1 : Fr s { s with nextD := s.nextD + 1, dprocs := s.dprocs ++ [({ d := s.nextD, itemId := id, delay := delay } : DProc)] } :=
-    Fr.of_eq ⟨rfl, rfl, rfl⟩ ⟨rfl, rfl, rfl⟩ rfl rfl rfl rfl rfl rfl rfl rfl rfl rfl rfl rfl (Nat.le_refl _) rfl
+    Fr.of_eq ⟨rfl, rfl, rfl, rfl⟩ ⟨rfl, rfl, rfl⟩ rfl rfl rfl rfl rfl rfl rfl rfl rfl rfl rfl rfl (Nat.le_refl _) rfl
   have h2 := Fr.sched { s with nextD := s.nextD + 1, dprocs := s.dprocs ++ [({ d := s.nextD, itemId := id, delay := delay } : DProc)] } true (.initD s.nextD) trivial
   refine (h1.trans h2).trans ?_
-  exact Fr.of_eq ⟨rfl, rfl, rfl⟩ ⟨rfl, rfl, rfl⟩ rfl rfl rfl rfl rfl rfl rfl rfl rfl rfl rfl rfl (Nat.le_refl _) rfl
+  exact Fr.of_eq ⟨rfl, rfl, rfl, rfl⟩ ⟨rfl, rfl, rfl⟩ rfl rfl rfl rfl rfl rfl rfl rfl rfl rfl rfl rfl (Nat.le_refl _) rfl
 
 theorem Fr.foldl {α} (f : CBelt → α → CBelt) (hf : ∀ s a, Fr s (f s a)) (l : List α) : ∀ s, Fr s (l.foldl f s) := by
   induction l with
@@ -170,19 +170,19 @@ theorem Fr.selectiveInterrupt (s : CBelt) : Fr s s.selectiveInterrupt := by
 
 theorem Fr.resumeAll (s : CBelt) : Fr s s.resumeAll := by
   unfold CBelt.resumeAll
-  have h1 : Fr s { s with reGen := s.reGen + 1 } := Fr.of_eq ⟨rfl, rfl, rfl⟩ ⟨rfl, rfl, rfl⟩ rfl rfl rfl rfl rfl rfl rfl rfl rfl rfl rfl rfl (Nat.le_refl _) rfl
+  have h1 : Fr s { s with reGen := s.reGen + 1 } := Fr.of_eq ⟨rfl, rfl, rfl, rfl⟩ ⟨rfl, rfl, rfl⟩ rfl rfl rfl rfl rfl rfl rfl rfl rfl rfl rfl rfl (Nat.le_refl _) rfl
   exact h1.trans (Fr.sched _ false (.re s.reGen) trivial)
 
 theorem Fr.cancelDelayed (s : CBelt) : Fr s s.cancelDelayed := by
   unfold CBelt.cancelDelayed
   have h1 : Fr s (s.activeDelayed.foldl (fun s e => s.sched s.now true (.intr (.delayed e.2))) s) := by
     apply Fr.foldl; intro s e; exact Fr.sched s true _ trivial
-  exact h1.trans (Fr.of_eq ⟨rfl, rfl, rfl⟩ ⟨rfl, rfl, rfl⟩ rfl rfl rfl rfl rfl rfl rfl rfl rfl rfl rfl rfl (Nat.le_refl _) rfl)
+  exact h1.trans (Fr.of_eq ⟨rfl, rfl, rfl, rfl⟩ ⟨rfl, rfl, rfl⟩ rfl rfl rfl rfl rfl rfl rfl rfl rfl rfl rfl rfl (Nat.le_refl _) rfl)
 
 theorem Fr.setState (s : CBelt) (new : CState) : Fr s (s.setState new) := by
   unfold CBelt.setState
-  have h1 : Fr s { s with st := new, everStalled := s.everStalled || new.stalled } := Fr.of_eq ⟨rfl, rfl, rfl⟩ ⟨rfl, rfl, rfl⟩ rfl rfl rfl rfl rfl rfl rfl rfl rfl rfl rfl rfl (Nat.le_refl _) rfl
-  have h2 : ∀ b, Fr s { s with st := new, everStalled := s.everStalled || new.stalled, noacc := b } := fun b => Fr.of_eq ⟨rfl, rfl, rfl⟩ ⟨rfl, rfl, rfl⟩ rfl rfl rfl rfl rfl rfl rfl rfl rfl rfl rfl rfl (Nat.le_refl _) rfl
+  have h1 : Fr s { s with st := new, everStalled := s.everStalled || new.stalled } := Fr.of_eq ⟨rfl, rfl, rfl, rfl⟩ ⟨rfl, rfl, rfl⟩ rfl rfl rfl rfl rfl rfl rfl rfl rfl rfl rfl rfl (Nat.le_refl _) rfl
+  have h2 : ∀ b, Fr s { s with st := new, everStalled := s.everStalled || new.stalled, noacc := b } := fun b => Fr.of_eq ⟨rfl, rfl, rfl, rfl⟩ ⟨rfl, rfl, rfl⟩ rfl rfl rfl rfl rfl rfl rfl rfl rfl rfl rfl rfl (Nat.le_refl _) rfl
   simp only
   split
   · split
@@ -199,12 +199,12 @@ theorem Fr.makeCond (s : CBelt) : Fr s s.makeCond := by
   simp only
   split
   · have h1 : Fr s { s with nextUid := s.nextUid + 1, bWaitIA := false, cond := some (s.nextUid, true) } :=
-      Fr.of_eq ⟨rfl, rfl, rfl⟩ ⟨rfl, rfl, rfl⟩ rfl rfl rfl rfl rfl rfl rfl rfl rfl rfl rfl rfl (Nat.le_succ _) rfl
+      Fr.of_eq ⟨rfl, rfl, rfl, rfl⟩ ⟨rfl, rfl, rfl⟩ rfl rfl rfl rfl rfl rfl rfl rfl rfl rfl rfl rfl (Nat.le_succ _) rfl
     exact h1.trans (Fr.sched _ false (.cond s.nextUid) trivial)
-  · exact Fr.of_eq ⟨rfl, rfl, rfl⟩ ⟨rfl, rfl, rfl⟩ rfl rfl rfl rfl rfl rfl rfl rfl rfl rfl rfl rfl (Nat.le_succ _) rfl
+  · exact Fr.of_eq ⟨rfl, rfl, rfl, rfl⟩ ⟨rfl, rfl, rfl⟩ rfl rfl rfl rfl rfl rfl rfl rfl rfl rfl rfl rfl (Nat.le_succ _) rfl
 
 theorem Fr.noacc (s : CBelt) (b : Bool) : Fr s { s with noacc := b } :=
-  Fr.of_eq ⟨rfl, rfl, rfl⟩ ⟨rfl, rfl, rfl⟩ rfl rfl rfl rfl rfl rfl rfl rfl rfl rfl rfl rfl (Nat.le_refl _) rfl
+  Fr.of_eq ⟨rfl, rfl, rfl, rfl⟩ ⟨rfl, rfl, rfl⟩ rfl rfl rfl rfl rfl rfl rfl rfl rfl rfl rfl rfl (Nat.le_refl _) rfl
 
 theorem Fr.stallState (s : CBelt) : Fr s s.stallState := by
   unfold CBelt.stallState
@@ -221,28 +221,28 @@ theorem Fr.bLoop (s : CBelt) : Fr s s.bLoop := by
       have h1 : Fr s { s.setState .idle with noacc := false } := (Fr.setState s _).trans (Fr.noacc _ _)
       split
       · refine (h1.trans ?_).trans (Fr.makeCond _)
-        exact Fr.of_eq ⟨rfl, rfl, rfl⟩ ⟨rfl, rfl, rfl⟩ rfl rfl rfl rfl rfl rfl rfl rfl rfl rfl rfl rfl (Nat.le_refl _) rfl
-      · exact h1.trans (Fr.of_eq ⟨rfl, rfl, rfl⟩ ⟨rfl, rfl, rfl⟩ rfl rfl rfl rfl rfl rfl rfl rfl rfl rfl rfl rfl (Nat.le_refl _) rfl)
+        exact Fr.of_eq ⟨rfl, rfl, rfl, rfl⟩ ⟨rfl, rfl, rfl⟩ rfl rfl rfl rfl rfl rfl rfl rfl rfl rfl rfl rfl (Nat.le_refl _) rfl
+      · exact h1.trans (Fr.of_eq ⟨rfl, rfl, rfl, rfl⟩ ⟨rfl, rfl, rfl⟩ rfl rfl rfl rfl rfl rfl rfl rfl rfl rfl rfl rfl (Nat.le_refl _) rfl)
     · split
       · exact ((Fr.setState s _).trans (Fr.noacc _ _)).trans (Fr.makeCond _)
       · exact (Fr.stallState s).trans (Fr.makeCond _)
 
 theorem Fr.bWake (s : CBelt) : Fr s s.bWake := by
   unfold CBelt.bWake
-  have h0 : Fr s { s with cond := none } := Fr.of_eq ⟨rfl, rfl, rfl⟩ ⟨rfl, rfl, rfl⟩ rfl rfl rfl rfl rfl rfl rfl rfl rfl rfl rfl rfl (Nat.le_refl _) rfl
+  have h0 : Fr s { s with cond := none } := Fr.of_eq ⟨rfl, rfl, rfl, rfl⟩ ⟨rfl, rfl, rfl⟩ rfl rfl rfl rfl rfl rfl rfl rfl rfl rfl rfl rfl (Nat.le_refl _) rfl
   simp only
   split
   · split
     · refine ((h0.trans (Fr.stallState _)).trans ?_).trans (Fr.bLoop _)
-      exact Fr.of_eq ⟨rfl, rfl, rfl⟩ ⟨rfl, rfl, rfl⟩ rfl rfl rfl rfl rfl rfl rfl rfl rfl rfl rfl rfl (Nat.le_refl _) rfl
+      exact Fr.of_eq ⟨rfl, rfl, rfl, rfl⟩ ⟨rfl, rfl, rfl⟩ rfl rfl rfl rfl rfl rfl rfl rfl rfl rfl rfl rfl (Nat.le_refl _) rfl
     · refine (h0.trans ?_).trans (Fr.bLoop _)
-      exact Fr.of_eq ⟨rfl, rfl, rfl⟩ ⟨rfl, rfl, rfl⟩ rfl rfl rfl rfl rfl rfl rfl rfl rfl rfl rfl rfl (Nat.le_refl _) rfl
+      exact Fr.of_eq ⟨rfl, rfl, rfl, rfl⟩ ⟨rfl, rfl, rfl⟩ rfl rfl rfl rfl rfl rfl rfl rfl rfl rfl rfl rfl (Nat.le_refl _) rfl
   · split
     · refine (h0.trans ?_).trans (Fr.bLoop _)
-      exact Fr.of_eq ⟨rfl, rfl, rfl⟩ ⟨rfl, rfl, rfl⟩ rfl rfl rfl rfl rfl rfl rfl rfl rfl rfl rfl rfl (Nat.le_refl _) rfl
+      exact Fr.of_eq ⟨rfl, rfl, rfl, rfl⟩ ⟨rfl, rfl, rfl⟩ rfl rfl rfl rfl rfl rfl rfl rfl rfl rfl rfl rfl (Nat.le_refl _) rfl
     · split
       · refine (h0.trans ?_).trans (Fr.bLoop _)
-        exact Fr.of_eq ⟨rfl, rfl, rfl⟩ ⟨rfl, rfl, rfl⟩ rfl rfl rfl rfl rfl rfl rfl rfl rfl rfl rfl rfl (Nat.le_refl _) rfl
+        exact Fr.of_eq ⟨rfl, rfl, rfl, rfl⟩ ⟨rfl, rfl, rfl⟩ rfl rfl rfl rfl rfl rfl rfl rfl rfl rfl rfl rfl (Nat.le_refl _) rfl
       · exact h0.trans (Fr.bLoop _)
 
 theorem Fr.handleNew (s : CBelt) (id : Nat) : Fr s (s.handleNew id) := by
@@ -266,32 +266,32 @@ theorem Fr.onShot (s : CBelt) (w : Which) (gen : Nat) : Fr s (s.onShot w gen) :=
     · exact Fr.refl s
     · split
       · refine Fr.trans ?_ (Fr.makeCond _)
-        exact Fr.of_eq ⟨rfl, rfl, rfl⟩ ⟨rfl, rfl, rfl⟩ rfl rfl rfl rfl rfl rfl rfl rfl rfl rfl rfl rfl (Nat.le_refl _) rfl
-      · exact Fr.of_eq ⟨rfl, rfl, rfl⟩ ⟨rfl, rfl, rfl⟩ rfl rfl rfl rfl rfl rfl rfl rfl rfl rfl rfl rfl (Nat.le_refl _) rfl
+        exact Fr.of_eq ⟨rfl, rfl, rfl, rfl⟩ ⟨rfl, rfl, rfl⟩ rfl rfl rfl rfl rfl rfl rfl rfl rfl rfl rfl rfl (Nat.le_refl _) rfl
+      · exact Fr.of_eq ⟨rfl, rfl, rfl, rfl⟩ ⟨rfl, rfl, rfl⟩ rfl rfl rfl rfl rfl rfl rfl rfl rfl rfl rfl rfl (Nat.le_refl _) rfl
   | ga =>
     simp only
     split
     · exact Fr.refl s
     · split
       · refine Fr.trans ?_ (Fr.sched _ false _ trivial)
-        exact Fr.of_eq ⟨rfl, rfl, rfl⟩ ⟨rfl, rfl, rfl⟩ rfl rfl rfl rfl rfl rfl rfl rfl rfl rfl rfl rfl (Nat.le_refl _) rfl
-      · exact Fr.of_eq ⟨rfl, rfl, rfl⟩ ⟨rfl, rfl, rfl⟩ rfl rfl rfl rfl rfl rfl rfl rfl rfl rfl rfl rfl (Nat.le_refl _) rfl
+        exact Fr.of_eq ⟨rfl, rfl, rfl, rfl⟩ ⟨rfl, rfl, rfl⟩ rfl rfl rfl rfl rfl rfl rfl rfl rfl rfl rfl rfl (Nat.le_refl _) rfl
+      · exact Fr.of_eq ⟨rfl, rfl, rfl, rfl⟩ ⟨rfl, rfl, rfl⟩ rfl rfl rfl rfl rfl rfl rfl rfl rfl rfl rfl rfl (Nat.le_refl _) rfl
   | pa =>
     simp only
     split
     · exact Fr.refl s
     · split
       · refine Fr.trans ?_ (Fr.sched _ false _ trivial)
-        exact Fr.of_eq ⟨rfl, rfl, rfl⟩ ⟨rfl, rfl, rfl⟩ rfl rfl rfl rfl rfl rfl rfl rfl rfl rfl rfl rfl (Nat.le_refl _) rfl
-      · exact Fr.of_eq ⟨rfl, rfl, rfl⟩ ⟨rfl, rfl, rfl⟩ rfl rfl rfl rfl rfl rfl rfl rfl rfl rfl rfl rfl (Nat.le_refl _) rfl
+        exact Fr.of_eq ⟨rfl, rfl, rfl, rfl⟩ ⟨rfl, rfl, rfl⟩ rfl rfl rfl rfl rfl rfl rfl rfl rfl rfl rfl rfl (Nat.le_refl _) rfl
+      · exact Fr.of_eq ⟨rfl, rfl, rfl, rfl⟩ ⟨rfl, rfl, rfl⟩ rfl rfl rfl rfl rfl rfl rfl rfl rfl rfl rfl rfl (Nat.le_refl _) rfl
   | ri =>
     simp only
     split
     · exact Fr.refl s
     · split
       · refine Fr.trans ?_ (Fr.sched _ false _ trivial)
-        exact Fr.of_eq ⟨rfl, rfl, rfl⟩ ⟨rfl, rfl, rfl⟩ rfl rfl rfl rfl rfl rfl rfl rfl rfl rfl rfl rfl (Nat.le_refl _) rfl
-      · exact Fr.of_eq ⟨rfl, rfl, rfl⟩ ⟨rfl, rfl, rfl⟩ rfl rfl rfl rfl rfl rfl rfl rfl rfl rfl rfl rfl (Nat.le_refl _) rfl
+        exact Fr.of_eq ⟨rfl, rfl, rfl, rfl⟩ ⟨rfl, rfl, rfl⟩ rfl rfl rfl rfl rfl rfl rfl rfl rfl rfl rfl rfl (Nat.le_refl _) rfl
+      · exact Fr.of_eq ⟨rfl, rfl, rfl, rfl⟩ ⟨rfl, rfl, rfl⟩ rfl rfl rfl rfl rfl rfl rfl rfl rfl rfl rfl rfl (Nat.le_refl _) rfl
 
 end CBelt
 end FsVerif
